@@ -586,7 +586,9 @@ class BGP(protocol.Protocol):
         """Negotiates the hold time"""
 
         self.fsm.hold_time = min(self.fsm.hold_time, hold_time)
-        if self.fsm.hold_time != 0 and self.fsm.hold_time < 3:
+        # RFC 4271 4.2: a proposed hold time of one or two seconds must be rejected,
+        # also when our own value of zero makes the negotiated result zero
+        if 0 < hold_time < 3 or (self.fsm.hold_time != 0 and self.fsm.hold_time < 3):
             self.fsm.open_message_error(bgp_cons.ERR_MSG_OPEN_UNACCPT_HOLD_TIME)
             # Derived times
         self.fsm.keep_alive_time = self.fsm.hold_time / 3
